@@ -237,5 +237,233 @@ theorem C01_law_any_fails_at_eof (k id : Nat) (c : Ctx) (env : List (String × V
     (h : atEOF pt = true) : evalStep E rec k c (.any id) env pt w = .fail env (note c pt.pos "." false w) := by
   simp [evalStep, h]
 
+
+/-! ### the documented value shapes, read off the specification
+
+  What `Parse` returns for each kind of expression (doc.go, "Returned values"): the exact matched input bytes for a terminal, nil for
+  a predicate, one element per item for a sequence and per iteration for `*` / `+`, nil or the operand's value for `?`, the chosen
+  alternative's value for a choice (laws above), the block's return value for an action. Stated for an arbitrary semantics `rec` of the
+  sub-expressions; by `C01_runtime_is_peg` they are facts about the runtime in the plain configuration. -/
+
+theorem ite_res {C : Prop} [Decidable C] {a b r : Res} (h : (if C then a else b) = r) : (C ∧ a = r) ∨ (¬C ∧ b = r) := by
+  split at h
+  · exact Or.inl ⟨‹C›, h⟩
+  · exact Or.inr ⟨‹¬C›, h⟩
+
+/-- **terminals return the exact matched input bytes**: a literal, a class or `.` that matches from `pt` to `pt'` has the value
+    `input[pt.off, pt'.off)` - the bytes of the input, not the bytes of the grammar (`"K"i` on `k` returns `k`; a stray byte matched
+    by U+FFFD is returned as that byte) - and binds nothing -/
+theorem C01_shape_terminal (k : Nat) (c : Ctx) (e : Expr) (env env' : List (String × Val)) (pt pt' : Savepoint) (w w' : World) (v : Val)
+    (hk : (∃ id val ic want, e = .lit id val ic want) ∨ (∃ id, e = .any id) ∨ (∃ id cd, e = .cls id cd))
+    (h : evalStep E rec k c e env pt w = .ok v pt' env' w') : v = .bytes (slice E pt pt') ∧ env' = env := by
+  rcases hk with ⟨id, val, ic, want, rfl⟩ | ⟨id, rfl⟩ | ⟨id, cd, rfl⟩
+  · simp only [evalStep] at h
+    cases hl : evalLit E c ic val pt w with
+    | mk o w1 =>
+      rw [hl] at h
+      cases o with
+      | none => cases h
+      | some pt1 => simp only [Res.ok.injEq] at h; exact ⟨by rw [← h.1, h.2.1], h.2.2.1.symm⟩
+  · simp only [evalStep] at h
+    rcases ite_res h with ⟨_, h⟩ | ⟨_, h⟩
+    · cases h
+    · simp only [Res.ok.injEq] at h; exact ⟨by rw [← h.1, h.2.1], h.2.2.1.symm⟩
+  · simp only [evalStep] at h
+    rcases ite_res h with ⟨_, h⟩ | ⟨_, h⟩
+    · simp only [Res.ok.injEq] at h; exact ⟨by rw [← h.1, h.2.1], h.2.2.1.symm⟩
+    · cases h
+
+/-- **predicates return nil and consume nothing** (`&e`, `!e`, `&{…}`, `!{…}`) and bind nothing -/
+theorem C01_shape_predicate (k : Nat) (c : Ctx) (e : Expr) (env env' : List (String × Val)) (pt pt' : Savepoint) (w w' : World) (v : Val)
+    (hk : (∃ id e1, e = .and id e1) ∨ (∃ id e1, e = .not id e1) ∨ (∃ id b, e = .andCode id b) ∨ (∃ id b, e = .notCode id b))
+    (h : evalStep E rec k c e env pt w = .ok v pt' env' w') : v = .nil ∧ pt' = pt ∧ env' = env := by
+  rcases hk with ⟨id, e1, rfl⟩ | ⟨id, e1, rfl⟩ | ⟨id, b, rfl⟩ | ⟨id, b, rfl⟩
+  · simp only [evalStep] at h
+    cases hr : rec c e1 [] pt w with
+    | ok v1 pt1 env1 w1 => rw [hr] at h; simp only [Res.ok.injEq] at h; exact ⟨h.1.symm, h.2.1.symm, h.2.2.1.symm⟩
+    | fail env1 w1 => rw [hr] at h; cases h
+    | oof => rw [hr] at h; cases h
+    | panic p w1 => rw [hr] at h; cases h
+  · simp only [evalStep] at h
+    cases hr : rec { c with neg := !c.neg } e1 [] pt w with
+    | ok v1 pt1 env1 w1 => rw [hr] at h; cases h
+    | fail env1 w1 => rw [hr] at h; simp only [Res.ok.injEq] at h; exact ⟨h.1.symm, h.2.1.symm, h.2.2.1.symm⟩
+    | oof => rw [hr] at h; cases h
+    | panic p w1 => rw [hr] at h; cases h
+  · simp only [evalStep] at h
+    cases hp : (call E b env pt w).1.panic with
+    | some p => rw [hp] at h; cases h
+    | none =>
+      rw [hp] at h
+      rcases ite_res h with ⟨_, h⟩ | ⟨_, h⟩
+      · simp only [Res.ok.injEq] at h; exact ⟨h.1.symm, h.2.1.symm, h.2.2.1.symm⟩
+      · cases h
+  · simp only [evalStep] at h
+    cases hp : (call E b env pt w).1.panic with
+    | some p => rw [hp] at h; cases h
+    | none =>
+      rw [hp] at h
+      rcases ite_res h with ⟨_, h⟩ | ⟨_, h⟩
+      · simp only [Res.ok.injEq] at h; exact ⟨h.1.symm, h.2.1.symm, h.2.2.1.symm⟩
+      · cases h
+
+/-- the values a sequence collects: one per item, in order, after what was collected before -/
+theorem evalSeq_shape (c : Ctx) (st0 : Store) : ∀ (es : List Expr) (env : List (String × Val)) (pt : Savepoint) (w : World) (acc : List Val)
+    (v : Val) (pt' : Savepoint) (env' : List (String × Val)) (w' : World),
+    evalSeq E rec c st0 es env pt w acc = .ok v pt' env' w' → ∃ vs, v = .list (acc.reverse ++ vs) ∧ vs.length = es.length
+  | [], env, pt, w, acc, v, pt', env', w', h => by
+    simp only [evalSeq, Res.ok.injEq] at h
+    exact ⟨[], by simp [h.1.symm], rfl⟩
+  | e :: es, env, pt, w, acc, v, pt', env', w', h => by
+    simp only [evalSeq] at h
+    cases hr : rec c e env pt w with
+    | ok v1 pt1 env1 w1 =>
+      rw [hr] at h
+      obtain ⟨vs, hv, hl⟩ := evalSeq_shape c st0 es env1 pt1 w1 (v1 :: acc) v pt' env' w' h
+      exact ⟨v1 :: vs, by simp [hv], by simp [hl]⟩
+    | fail env1 w1 => rw [hr] at h; cases h
+    | oof => rw [hr] at h; cases h
+    | panic p w1 => rw [hr] at h; cases h
+
+/-- **a sequence returns one element per item** -/
+theorem C01_shape_sequence (k : Nat) (c : Ctx) (id : Nat) (es : List Expr) (env env' : List (String × Val)) (pt pt' : Savepoint)
+    (w w' : World) (v : Val) (h : evalStep E rec k c (.seq id es) env pt w = .ok v pt' env' w') :
+    ∃ vs, v = .list vs ∧ vs.length = es.length := by
+  simp only [evalStep] at h
+  obtain ⟨vs, hv, hl⟩ := evalSeq_shape E rec c w.state es env pt w [] v pt' env' w' h
+  exact ⟨vs, by simpa using hv, hl⟩
+
+/-- the iterations of a greedy repetition from `pt`: each is one successful evaluation of the body in a fresh scope, starting where
+    the previous one ended; the list ends at the first evaluation that fails -/
+inductive Iterations (c : Ctx) (e : Expr) : Savepoint → World → List Val → Savepoint → Prop
+  | stop {pt : Savepoint} {w : World} {env' : List (String × Val)} {w' : World} :
+      rec c e [] pt w = .fail env' w' → Iterations c e pt w [] pt
+  | more {pt pt1 pt' : Savepoint} {w w1 : World} {v1 : Val} {env1 : List (String × Val)} {vs : List Val} :
+      rec c e [] pt w = .ok v1 pt1 env1 w1 → Iterations c e pt1 w1 vs pt' → Iterations c e pt w (v1 :: vs) pt'
+
+theorem evalLoop_shape (c : Ctx) (e : Expr) : ∀ (k : Nat) (env : List (String × Val)) (pt : Savepoint) (w : World) (acc : List Val)
+    (v : Val) (pt' : Savepoint) (env' : List (String × Val)) (w' : World),
+    evalLoop rec c e k env pt w acc = .ok v pt' env' w' →
+      ∃ vs, v = .list (acc.reverse ++ vs) ∧ Iterations rec c e pt w vs pt'
+  | 0, _, _, _, _, _, _, _, _, h => by simp [evalLoop] at h
+  | k + 1, env, pt, w, acc, v, pt', env', w', h => by
+    simp only [evalLoop] at h
+    cases hr : rec c e [] pt w with
+    | ok v1 pt1 env1 w1 =>
+      rw [hr] at h
+      obtain ⟨vs, hv, hi⟩ := evalLoop_shape c e k env pt1 w1 (v1 :: acc) v pt' env' w' h
+      exact ⟨v1 :: vs, by simp [hv], .more hr hi⟩
+    | fail env1 w1 =>
+      rw [hr] at h
+      rcases ite_res h with ⟨_, h⟩ | ⟨_, h⟩
+      · cases h
+      · simp only [Res.ok.injEq] at h
+        exact ⟨[], by simp [h.1.symm], h.2.1 ▸ .stop hr⟩
+    | oof => rw [hr] at h; cases h
+    | panic p w1 => rw [hr] at h; cases h
+
+/-- **`e+` returns one element per iteration**: the list of the values of the successive matches of `e`, each starting where the
+    previous one ended, up to the first position where `e` fails (where the repetition ends) -/
+theorem C01_shape_one_or_more (k : Nat) (c : Ctx) (id : Nat) (e : Expr) (env env' : List (String × Val)) (pt pt' : Savepoint)
+    (w w' : World) (v : Val) (h : evalStep E rec k c (.oneOrMore id e) env pt w = .ok v pt' env' w') :
+    ∃ vs, v = .list vs ∧ vs ≠ [] ∧ Iterations rec c e pt w vs pt' := by
+  simp only [evalStep] at h
+  obtain ⟨vs, hv, hi⟩ := evalLoop_shape rec c e k env pt w [] v pt' env' w' h
+  refine ⟨vs, by simpa using hv, ?_, hi⟩
+  rintro rfl
+  cases hi with
+  | stop hr =>
+    cases k with
+    | zero => simp [evalLoop] at h
+    | succ k => simp [evalLoop, hr] at h
+
+/-- **`e*` returns one element per iteration** (the empty list when `e` does not match at all) -/
+theorem C01_shape_zero_or_more (k : Nat) (c : Ctx) (id : Nat) (e : Expr) (env env' : List (String × Val)) (pt pt' : Savepoint)
+    (w w' : World) (v : Val) (h : evalStep E rec k c (.zeroOrMore id e) env pt w = .ok v pt' env' w') :
+    ∃ vs, v = .list vs ∧ Iterations rec c e pt w vs pt' := by
+  simp only [evalStep] at h
+  cases hl : evalLoop rec c e k env pt w [] with
+  | ok v1 pt1 env1 w1 =>
+    rw [hl] at h
+    simp only [Res.ok.injEq] at h
+    obtain ⟨vs, hv, hi⟩ := evalLoop_shape rec c e k env pt w [] v1 pt1 env1 w1 hl
+    exact ⟨vs, by rw [← h.1]; simpa using hv, h.2.1 ▸ hi⟩
+  | fail env1 w1 =>
+    rw [hl] at h
+    simp only [Res.ok.injEq] at h
+    -- the loop fails only when the FIRST evaluation of the body fails
+    cases k with
+    | zero => simp [evalLoop] at hl
+    | succ k =>
+      simp only [evalLoop] at hl
+      cases hr : rec c e [] pt w with
+      | ok v1 pt1 env2 w2 =>
+        rw [hr] at hl
+        exfalso
+        have : ∀ (k : Nat) (pt : Savepoint) (w : World) (acc : List Val), acc ≠ [] →
+            ∀ env1 w1, evalLoop rec c e k env pt w acc ≠ .fail env1 w1 := by
+          intro k
+          induction k with
+          | zero => intro _ _ _ _ _ _ hh; simp [evalLoop] at hh
+          | succ k ih =>
+            intro pt w acc hne env1 w1 hh
+            simp only [evalLoop] at hh
+            cases hr2 : rec c e [] pt w with
+            | ok v2 pt2 env3 w3 => rw [hr2] at hh; exact ih _ _ _ (by simp) _ _ hh
+            | fail env3 w3 =>
+              rw [hr2] at hh
+              rcases ite_res hh with ⟨he, _⟩ | ⟨_, hh⟩
+              · simp at he; exact hne he
+              · cases hh
+            | oof => rw [hr2] at hh; cases hh
+            | panic p w3 => rw [hr2] at hh; cases hh
+        exact this k pt1 w2 [v1] (by simp) env1 w1 hl
+      | fail env2 w2 => exact ⟨[], h.1.symm, h.2.1 ▸ .stop hr⟩
+      | oof => rw [hr] at hl; cases hl
+      | panic p w2 => rw [hr] at hl; cases hl
+  | oof => rw [hl] at h; cases h
+  | panic p w1 => rw [hl] at h; cases h
+
+/-- **`e?` returns nil or the operand's value**: the operand's value and end position when it matches, nil at the same position
+    when it does not -/
+theorem C01_shape_optional (k : Nat) (c : Ctx) (id : Nat) (e : Expr) (env env' : List (String × Val)) (pt pt' : Savepoint)
+    (w w' : World) (v : Val) (h : evalStep E rec k c (.zeroOrOne id e) env pt w = .ok v pt' env' w') :
+    (∃ env1, rec c e [] pt w = .ok v pt' env1 w') ∨ (v = .nil ∧ pt' = pt ∧ ∃ env1, rec c e [] pt w = .fail env1 w') := by
+  simp only [evalStep] at h
+  cases hr : rec c e [] pt w with
+  | ok v1 pt1 env1 w1 =>
+    rw [hr] at h
+    simp only [Res.ok.injEq] at h
+    exact Or.inl ⟨env1, by rw [h.1, h.2.1, h.2.2.2]⟩
+  | fail env1 w1 =>
+    rw [hr] at h
+    simp only [Res.ok.injEq] at h
+    exact Or.inr ⟨h.1.symm, h.2.1.symm, env1, by rw [h.2.2.2]⟩
+  | oof => rw [hr] at h; cases h
+  | panic p w1 => rw [hr] at h; cases h
+
+/-- **an action returns what its code block returns**: when `e { code }` matches, its value is the return value of the call of the
+    block in the scope `e` left, with `text` = the bytes `e` matched and `pos` = where it started -/
+theorem C01_shape_action (k : Nat) (c : Ctx) (id blk : Nat) (e : Expr) (env env' : List (String × Val)) (pt pt' : Savepoint)
+    (w w' : World) (v : Val) (h : evalStep E rec k c (.action id blk e) env pt w = .ok v pt' env' w') :
+    ∃ v1 w1, rec c e env pt w = .ok v1 pt' env' w1 ∧
+      v = (call E blk env' pt' { w1 with curPos := pt.pos, curText := slice E pt pt' }).1.ret := by
+  simp only [evalStep] at h
+  cases hr : rec c e env pt w with
+  | ok v1 pt1 env1 w1 =>
+    rw [hr] at h
+    simp only [] at h
+    cases hp : (call E blk env1 pt1 { w1 with curPos := pt.pos, curText := slice E pt pt1 }).1.panic with
+    | some p => rw [hp] at h; cases h
+    | none =>
+      rw [hp] at h
+      simp only [Res.ok.injEq] at h
+      obtain ⟨h1, h2, h3, _⟩ := h
+      subst h2 h3
+      exact ⟨v1, w1, rfl, h1.symm⟩
+  | fail env1 w1 => rw [hr] at h; cases h
+  | oof => rw [hr] at h; cases h
+  | panic p w1 => rw [hr] at h; cases h
+
 end Spec
 end PV
